@@ -295,6 +295,18 @@ func findWrappers(r *Roles, fn *ssa.Function) map[string]*ssa.Function {
 		}
 	}
 	visit(fn)
+	// the setter may delegate to the option form: follow static in-package callees one level
+	if len(out) == 0 {
+		for _, b := range fn.Blocks {
+			for _, ins := range b.Instrs {
+				if call, ok := ins.(ssa.CallInstruction); ok {
+					if cal := call.Common().StaticCallee(); cal != nil && cal.Pkg == fn.Pkg && cal != fn {
+						visit(cal)
+					}
+				}
+			}
+		}
+	}
 	return out
 }
 
@@ -490,6 +502,21 @@ func analyzeDelegators(p *load.Program, r *Roles, res *UnitResult) {
 						}
 					}
 					col.CheckAt("C01.R6", label, okR, pth.pos, "a phase method must return its callee's results in order: "+whyR, nil)
+				}
+				// an adapter may report success only after it has seen the callee's error to be nil
+				for _, uc := range pth.calls {
+					if len(uc.res) >= 1 && len(pth.rets) >= 1 && (strings.HasPrefix(uc.class, "field:") || strings.HasPrefix(uc.class, "dyn:") || strings.HasPrefix(uc.class, "sum:")) {
+						errT := uc.res[len(uc.res)-1]
+						got := pth.rets[len(pth.rets)-1]
+						isErrTyped := false
+						if f := fn.Signature.Results(); f.Len() > 0 {
+							isErrTyped = f.At(f.Len()-1).Type().String() == "error"
+						}
+						if isErrTyped && got.K == eng.KNil {
+							okSeen := pth.e.Eval(pth.st.Facts(), eng.Bin("==", errT, eng.Nil())) == eng.TriTrue
+							col.CheckAt("C04.R6,C02.R3", tn+"."+m+":error-checked", okSeen, pth.pos, "the method reports success without having tested the error its callee returned (a failed attempt would count as a success: no retry, no fallback)", nil)
+						}
+					}
 				}
 				// error transparency of adapters: a non-nil error from the callee is returned as is (C04.R6)
 				for _, uc := range pth.calls {
